@@ -558,8 +558,13 @@ def run_property(P, tier, seed):
     known = [k for k in load_known().get("known", []) if k.get("property") == pid]
     classify = P.get("classify")
     disagreements = []
-    norm = P.get("normalize", lambda kind, s: s)
+    _norm = P.get("normalize")
+    norm_line = [None]
+
+    def norm(kind, s):
+        return _norm(kind, s, norm_line[0]) if _norm else s
     for i, line in enumerate(lines):
+        norm_line[0] = line
         mo = norm("model", model_out[i])
         so = norm("spec", spec_out[i]) if spec_out is not None else None
         bad = False
@@ -576,6 +581,7 @@ def run_property(P, tier, seed):
 
     for i in disagreements[:200]:
         line = lines[i]
+        norm_line[0] = line
         rec = {"property": pid, "case": line, "model": model_out[i],
                "spec": spec_out[i] if spec_out is not None else None,
                "impl": {k: v[i] for k, v in impl_outs.items()}, "seed": seed, "tier": tier, "index": i,
@@ -591,6 +597,7 @@ def run_property(P, tier, seed):
             continue
         # shrink against the same disagreement predicate
         def still(l, _i=i):
+            norm_line[0] = l
             mo = norm("model", run_model([l], shards=1)[0])
             so = norm("spec", run_model([l], spec=True, shards=1)[0]) if spec_out is not None else None
             if mo.startswith("(bad-case"):
